@@ -1125,6 +1125,19 @@ fn run(a: &Args) {
                     }
                     _ => "bad-op".into(),
                 },
+                ["k-race", v, l, n] => match (v.parse::<usize>(), l.parse::<usize>(), n.parse::<usize>()) {
+                    (Ok(v), Ok(l), Ok(n)) if v > n && n <= 4_000_000 => {
+                        // the accept thread's inc against a worker thread's dec, really concurrent
+                        let after = hooks::kernel_counter_race(v, l, n);
+                        if after != v {
+                            for p in ["C02", "C03"] {
+                                rep.t3(p, &format!("{n} inc() on one thread and {n} dec() on another left the counter at {after}, not {v}: an update was lost"));
+                            }
+                        }
+                        after.to_string()
+                    }
+                    _ => "bad-op".into(),
+                },
                 ["k-offset", i] => match i.parse::<usize>() {
                     Ok(i) => match catch(|| hooks::kernel_offset(i)) {
                         Ok((o, j)) => {
@@ -1726,6 +1739,14 @@ fn gen(a: &Args) {
             }
         }
     }
+    if matches!(prop, "C02" | "C03") {
+        // inc (accept thread) and dec (worker threads) are concurrent in the real server (seed11 C03-22)
+        for (v, l, n) in [(300_001usize, 1usize, 300_000usize), (400_003, 25_600, 400_000)] {
+            writeln!(w, "k-race {v} {l} {}", if thorough { n * 5 } else { n }).unwrap();
+        }
+        writeln!(w, "k-race 5 1 5").unwrap();
+        writeln!(w, "k-race 5 1 x").unwrap();
+    }
     if prop == "C04" {
         // a saturated worker receives nothing until it has released a connection — also a worker the server started
         // as a replacement (real Servers through the builder; the second one loses a worker first)
@@ -1847,6 +1868,11 @@ fn gen(a: &Args) {
         writeln!(w, "case builder-routing workers=1 limit=1 listeners=tcp").unwrap();
         writeln!(w, "pse workers=1 ls=t2,tl,tb").unwrap();
         writeln!(w, "pse workers=2 ls=ub,t2").unwrap();
+        // a Unix listener handed over by the caller (blocking, as std creates it) among TCP ones (seed11 C01-22)
+        writeln!(w, "pse workers=1 ls=ul,tb").unwrap();
+        if thorough {
+            writeln!(w, "pse workers=2 ls=tl,ul,ub").unwrap();
+        }
     }
     if prop == "C02" {
         // the configured limit reaches the workers whatever the order of the builder calls: real `Server`s
